@@ -4,13 +4,17 @@
 COQSRC := $(wildcard coq/theories/*.v)
 
 .PHONY: framework clean
-framework: coq/extract/driver
+framework: coq/extract/driver coq/oracle/.oracle.stamp
 
 coq/Makefile: coq/_CoqProject
 	cd coq && coq_makefile -f _CoqProject -o Makefile >/dev/null
 
 coq/.theories.stamp: coq/Makefile $(COQSRC)
 	cd coq && timeout 3000 $(MAKE) -j16 -s
+	touch $@
+
+coq/oracle/.oracle.stamp: coq/oracle/OracleTables.v coq/oracle/OracleConsts.v
+	cd coq/oracle && timeout 600 coqc -Q . Oracle OracleTables.v && timeout 600 coqc -Q . Oracle OracleConsts.v
 	touch $@
 
 coq/extract/model.ml: coq/.theories.stamp coq/extract/Extract.v
@@ -21,5 +25,5 @@ coq/extract/driver: coq/extract/model.ml coq/extract/driver.ml
 
 clean:
 	-cd coq && [ -f Makefile ] && $(MAKE) -s clean
-	rm -f coq/Makefile coq/Makefile.conf coq/.Makefile.d coq/.theories.stamp coq/extract/model.ml coq/extract/model.mli coq/extract/driver
+	rm -f coq/Makefile coq/Makefile.conf coq/.Makefile.d coq/.theories.stamp coq/oracle/.oracle.stamp coq/extract/model.ml coq/extract/model.mli coq/extract/driver
 	find coq -name '*.vo' -o -name '*.vok' -o -name '*.vos' -o -name '*.glob' -o -name '*.aux' -o -name '*.cm[iox]' -o -name '*.o' | xargs rm -f
